@@ -477,7 +477,13 @@ def run_check(prop, tier, seed):
 def replay(prop, path):
     """re-execute the schedule of a replay file on the real code and evaluate the monitors again."""
     rp = json.load(open(path))
-    fam = families.FAMILIES[rp["family"]]
+    schedule_fams = {"health": {"monitor": "MonHealth"}, "async": {"monitor": "MonAsync"}, "member-cb": {"monitor": "MonMember"},
+                     "member-sd": {"monitor": "MonMember"}}
+    if rp["family"] in ("chunk", "version", "config"):
+        # function-level properties: the replay file names the failing input; the check itself is the replay
+        print("replay of a function-level finding: re-running the whole table (%s)" % json.dumps(rp)[:600])
+        return run_check(prop, os.environ.get("VERIF_TIER", "quick"), int(os.environ.get("VERIF_SEED", "1") or "1"))
+    fam = schedule_fams.get(rp["family"]) or families.FAMILIES[rp["family"]]
     os.makedirs(CACHE, exist_ok=True)
     work = os.path.join(CACHE, "replay-work-%d" % os.getpid())
     shutil.rmtree(work, ignore_errors=True)
